@@ -106,7 +106,10 @@ def wfc_poll(exists: bool, status_idx: int, attempt: int, has_payload: bool, sha
     status = rec.status if rec else None
     a = attempt if (rec is not None and has_details) else 0
     tr = ops.run_wfc(rec, "INIT", lambda s: new_state, lambda s, n: (
-        WaitForConditionDecision.continue_waiting(Duration(delay)) if cont else WaitForConditionDecision.stop_polling()), serdes=mk_serdes(sk))
+        # the decision object is built DIRECTLY (the factories are one way to build it, exercised by wfc_chain): whatever the executor guarantees about
+        # a continue decision must hold for every decision value a strategy can return
+        WaitForConditionDecision(should_continue=True, delay=Duration(delay)) if cont else WaitForConditionDecision(should_continue=False, delay=Duration())),
+        serdes=mk_serdes(sk))
     st = tr.state
     ups = st.updates_for()
     acts = [u.action for (u, _s) in ups]
